@@ -413,6 +413,8 @@ func rewriteImplies(s string) string {
 }
 
 var oldRe = regexp.MustCompile(`\bold\(`)
+var sameSliceRe = regexp.MustCompile(`\bsameslice\(`)
+var sameRe = regexp.MustCompile(`\bsame\(`)
 
 // normalizeClause hoists forall binders and rewrites ==> and old().
 func normalizeClause(c *Clause) error {
@@ -446,6 +448,8 @@ func normalizeClause(c *Clause) error {
 	}
 	t = rewriteImplies(t)
 	t = oldRe.ReplaceAllString(t, "__vc_old(")
+	t = sameSliceRe.ReplaceAllString(t, "__vc_sameslice(")
+	t = sameRe.ReplaceAllString(t, "__vc_same(")
 	c.Expr = t
 	return nil
 }
@@ -732,6 +736,8 @@ func (cs *ContractSet) genOverlay(sp *srcPkg, contracts []*Contract, axioms []*C
 		out.WriteString(")\n\n")
 	}
 	out.WriteString("func __vc_old[T any](x T) T { return x }\n\n")
+	out.WriteString("func __vc_same[T any](a, b T) bool { return any(a) == any(b) }\n\n")
+	out.WriteString("func __vc_sameslice[T any](a, b []T) bool { return len(a) == len(b) && cap(a) == cap(b) && (cap(a) == 0 || &a[:1][0] == &b[:1][0]) }\n\n")
 	out.WriteString(body.String())
 	return out.String(), nil
 }
